@@ -658,6 +658,20 @@ def check_C14(tier, seed):
         ws = []
         for s in (vlib.REPR if tier == "quick" else vlib.ALL):
             ws.append(Workload(s, scripts, [], flags={"sweep": True, "stmts": True}, tag="t", origin=res["instance"], also=vlib.txn_also()))
+        # lock sweep at track level (library on disk): create, one value per field setter, update, remove - each first
+        # attempted while another connection holds an EXCLUSIVE / RESERVED / SHARED lock from the call's k-th statement on
+        lscripts = []
+        for base in (("full",) if tier == "quick" else ("full", "min")):
+            ops = [mk("create", snap=bases[base])]
+            for f in sorted(by_field):
+                for v in r.sample(by_field[f], min(1 if tier == "quick" else 3, len(by_field[f]))):
+                    ops.append(mk("set", t=1, f=f, v=v))
+            ops += [mk("update", t=1, snap=bases["edge"]), mk("remove", t=1)]
+            lscripts.append(ops)
+        lsch = ["1.6.0", "1.18.0o", "2.18.0", "2.21.2"] if tier == "quick" else vlib.ALL
+        for s in lsch:
+            ws.append(Workload(s, lscripts, [], mode="disk", flags={"locks": True}, tag="lt", origin=res["instance"], also=lockcheck.also(),
+                               per_shard=20))
         return ws
 
     import trackchecks as _tc
